@@ -54,6 +54,10 @@ func owTime(r *RNG) time.Time {
 	if r.Chance(15) {
 		return time.Time{}
 	}
+	if r.Chance(20) {
+		// boundary instants: the Unix epoch, just around it, times before it, far future
+		return time.Unix(int64(r.Pick2(0, 1, -1, -14182940, -2177452800, 253402300799, 4102444800)), 0).In(calZones[r.Intn(len(calZones))])
+	}
 	t := time.Unix(int64(r.Range(0, 2000000000)), int64(r.Pick2(0, 0, 500000000))).In(calZones[r.Intn(len(calZones))])
 	return t
 }
@@ -402,7 +406,8 @@ func emitObjMget(o *Out, r *RNG, card bool) {
 		}
 		switch r.Intn(4) {
 		case 0:
-			code := r.Pick2(404, 403, 410, 423, 500, 507)
+			// incl. codes net/http has no reason phrase for
+			code := r.Pick2(404, 403, 410, 423, 500, 507, 509, 420, 599)
 			getErr[p] = internal.HTTPErrorf(code, "refused")
 			if r.Chance(40) {
 				// the backend's storage layer wrapped it: the status is the same
